@@ -154,8 +154,10 @@ def make_score(name):
     from skchange.change_scores import CUSUM, ChangeScore
     from skchange.costs import GaussianVarCost, L2Cost
 
+    from skchange.costs import GaussianCovCost
+
     return {"CUSUM": lambda: CUSUM(), "L2": lambda: ChangeScore(L2Cost()), "L2cost": lambda: L2Cost(),
-            "GV": lambda: ChangeScore(GaussianVarCost())}[name]()
+            "GV": lambda: ChangeScore(GaussianVarCost()), "Cov": lambda: GaussianCovCost()}[name]()
 
 
 def check_data(acc, case, key):
@@ -165,11 +167,22 @@ def check_data(acc, case, key):
     n, p = X.shape
     b, mdi, ts = case["b"], case.get("mdi", 1), case["thr_scale"]
     fr = case.get("fit_rows")
-    cpts, sc, sc2, thr = mw(n, p, b, make_score(case["score"]), ts, mdi, X=pd.DataFrame(X), level=case.get("level"), fit_rows=fr)
-    ref = make_score("L2" if case["score"] == "L2cost" else case["score"]).fit(X)
+    try:
+        cpts, sc, sc2, thr = mw(n, p, b, make_score(case["score"]), ts, mdi, X=pd.DataFrame(X), level=case.get("level"), fit_rows=fr)
+    except RuntimeError:
+        if case["score"] != "Cov":
+            raise
+        acc.count("cov_data_with_a_singular_window_skipped")
+        return
     pos = list(range(b, n - b + 1))
     want = np.zeros(n)
-    want[pos] = ref.evaluate(np.array([(t - b, t, t + b) for t in pos])).sum(axis=1)
+    if case["score"] == "Cov":
+        # multivariate cost: oracle = the DEFINITION C(t-b,t+b) - C(t-b,t) - C(t,t+b), each from a fresh cost on exactly those rows
+        mk = lambda: make_score("Cov")  # noqa: E731
+        want[pos] = [util.whole_cost(mk, X[t - b:t + b]) - util.whole_cost(mk, X[t - b:t]) - util.whole_cost(mk, X[t:t + b]) for t in pos]
+    else:
+        ref = make_score("L2" if case["score"] == "L2cost" else case["score"]).fit(X)
+        want[pos] = ref.evaluate(np.array([(t - b, t, t + b) for t in pos])).sum(axis=1)
     for t in range(n):
         if not util.close(sc[t], want[t], 1e-8):
             acc.violation("mw-score-definition", case,
@@ -272,6 +285,10 @@ def tuned_cases(tier):
 
 
 def data_cases(tier, seed):
+    # multivariate cost (one output column whatever p is) on two generic columns
+    for n in (6, 7, 8) if tier == "quick" else (6, 7, 8, 9, 10, 11):
+        for xs in itertools.product((0, 3), repeat=n):
+            yield {"fam": "data", "x": util.two_generic_columns(xs), "score": "Cov", "b": 3, "thr_scale": 0.1}
     a, bb = util.seed_affine(seed)
     top3 = 7 if tier == "quick" else 9
     for alph in ((0, 1, 3), tuple(a + bb * x for x in (0, 1, 3))):
